@@ -11,6 +11,7 @@ import Oracle.CancelEngine
 import Oracle.PrivacyEngine
 import Oracle.DecodeEngine
 import Oracle.LocksetEngine
+import Oracle.ClassAdEngine
 
 def main (args : List String) : IO UInt32 := do
   match args with
@@ -27,6 +28,7 @@ def main (args : List String) : IO UInt32 := do
   | ["privacy"] => Oracle.PrivacyEngine.run; return 0
   | ["decode"] => Oracle.DecodeEngine.run; return 0
   | ["conc"] => Oracle.LocksetEngine.run; return 0
+  | ["classad"] => Oracle.ClassAdEngine.run; return 0
   | _ =>
     IO.eprintln "usage: cedar_oracle <engine>   (one op per stdin line, one reply per line)"
     return 2
